@@ -1,0 +1,8 @@
+//go:build verif
+
+package nebula
+
+// VerifSshSanitizeFilePath exposes sshSanitizeFilePath to the verification harness (engine sshpath).
+func VerifSshSanitizeFilePath(sandboxDir, filePath string) (string, error) {
+	return sshSanitizeFilePath(sandboxDir, filePath)
+}
